@@ -217,14 +217,14 @@ def special_corruptions(rng, wal, frames, sps):
 
 def mapping_leak(run, name, ops, crc, r, reset=None):
     """_rollforward_exl maps the log and has to unmap it: the recovery step of the harness counts the mappings of the log
-    file that are still there afterwards.  The pinned source calls munmap with the pointer it advanced to the reset mark
-    (EINVAL, the mapping stays; with a page-aligned mark it would unmap foreign memory): not a statement of C05 (the
-    state is right), a resource leak - judged only with VERIF_WAL_MUNMAP=1 (fixes/wal-munmap-base.diff)"""
+    file that are still there afterwards.  Before 7150cb6 the source called munmap with the pointer it had advanced to the
+    reset mark: EINVAL and the mapping stays for an unaligned mark, foreign memory unmapped (recovery dies) for a
+    page-aligned one.  A mapping left behind means that call is wrong again; VERIF_WAL_MUNMAP=0 only counts."""
     n = W.fields(r["impl_wal"]).get("walmaps", "0")
     if n in ("0", None):
         return
     run.dist("log_mapping_left_after_recovery")
-    if os.environ.get("VERIF_WAL_MUNMAP") != "1":
+    if os.environ.get("VERIF_WAL_MUNMAP") == "0":
         return
     run.cov.setdefault("violations_by_class", {})
     run.cov["violations_by_class"]["wal-mapping-leak"] = run.cov["violations_by_class"].get("wal-mapping-leak", 0) + 1
